@@ -392,7 +392,9 @@ class QasmProcessor:
                 elif command[0] in self.gate_names:
                     name = command[0]
                     gate_args, gate_regs = _gate_processor(command)
-                    gate_added = self.qasm_gates[name]
+                    self._check_body_call(
+                        curr_gate, name, gate_args, gate_regs
+                    )
                     curr_gate.gates_inside.append([name, gate_args, gate_regs])
                 elif command[0] == "barrier":
                     for reg in command[1:]:
@@ -452,6 +454,43 @@ class QasmProcessor:
             raise SyntaxError("QASM: incorrect bracket formatting")
 
         self.commands = [self.commands[i] for i in unprocessed]
+
+    def _check_body_call(self, curr_gate, name, gate_args, gate_regs):
+        """
+        Check one statement of a gate definition when it is read: its
+        qubits are distinct qubit arguments of the gate being defined, the
+        called gate gets the right number of parameters and qubits, and
+        the parameter expressions only use ``pi`` and the parameters of the
+        gate being defined.
+        """
+        for reg in gate_regs:
+            if reg not in curr_gate.gate_regs:
+                raise ValueError(
+                    "QASM: {} is not a qubit argument of gate {}".format(
+                        reg, curr_gate.name
+                    )
+                )
+        if len(set(gate_regs)) != len(gate_regs):
+            raise ValueError("QASM: a qubit is used twice in one statement")
+        if name in _GATE_SIGNATURES:
+            expected = _GATE_SIGNATURES[name]
+        else:
+            gate = self.qasm_gates[name]
+            expected = (len(gate.gate_args), len(gate.gate_regs))
+        _check_arity(name, len(gate_args), len(gate_regs), expected)
+        params = [arg.strip() for arg in curr_gate.gate_args]
+        for arg in gate_args:
+            if "^" in arg or "**" in arg:
+                raise NotImplementedError(
+                    "QASM: the power operator is not supported in expressions."
+                )
+            for ident in re.findall(r"(?<![\w.])[A-Za-z_]\w*", arg):
+                if ident != "pi" and ident not in params:
+                    raise NameError(
+                        "QASM: {} is not a parameter of gate {}".format(
+                            ident, curr_gate.name
+                        )
+                    )
 
     def _custom_gate(self, qc_temp, gate_call):
         """
